@@ -71,7 +71,24 @@ def r_emitters_skip_allowed_in_order(r, prog):
             r.ok('%s iterates its argument once, front to back' % nm)
         else:
             r.finding('emission-order:%s' % nm, f.span, '%s does not iterate the diagnostics vector exactly once from the front (found %s)' % (nm, [c.name() for c in rev]))
-    r.floor(6)
+        if nm == 'emit_diagnostics_in_human':
+            # every note of an emitted diagnostic is written: each pass of the loop over notes() goes through a write (no note is skipped
+            # because of what was written before, no cap)
+            nl = []
+            for h, b in f.natural_loops():
+                nxs = [c for c in f.calls() if c.name() == 'next' and c.bb in b and loop_of(f, c.bb)[0] == h and 'notes(' in vexpr(f, c.args[0])]
+                if nxs:
+                    nl.append((h, b, nxs[0]))
+            if len(nl) != 1:
+                raise AnchorMissing('the loop over diagnostic.notes() in %s' % nm)
+            h, b, nx_ = nl[0]
+            nwrites = [c for c in writes if c.bb in b]
+            some = [arm(e, 1) for e in enum_switches(f) if e['bb'] in b and loop_of(f, e['bb'])[0] == h and 1 in e['arms'] and f.dominates(nx_.bb, e['bb'])]
+            if nwrites and some and must_pass(f, some[0], [h], [c.bb for c in nwrites if c.name() == 'write_fmt'] or [c.bb for c in nwrites], within=b):
+                r.ok('%s: every note of an emitted diagnostic is written (no pass of the notes loop skips the write)' % nm)
+            else:
+                r.finding('note-not-written:%s' % nm, f.span, '%s can go on to the next note without writing the current one: a diagnostic is shown without (some of) its notes' % nm)
+    r.floor(7)
 
 
 REORDER = ('sort', 'sort_by', 'sort_by_key', 'sort_unstable', 'sort_unstable_by', 'sort_unstable_by_key', 'dedup', 'dedup_by', 'dedup_by_key', 'retain', 'retain_mut', 'remove',
